@@ -388,6 +388,7 @@ func (c *Client) monitor(ctx context.Context) {
 					return
 
 				default:
+					verifPoint("cl.monitor.action")
 					switch action {
 
 					case createSecureChannel:
